@@ -32,10 +32,13 @@ structure Cfg where
   /-- the UGRID export of a Cartesian-only grid carries `node_lon`/`node_lat` (as-is: it names them
       in the topology without having them) -/
   ensureLonLat : Bool
+  /-- the UGRID export drops the file's `_FillValue` / `missing_value` / `dtype` from the `.encoding` of
+      a variable that carries a `_FillValue` attribute (as-is: the stale encoding travels) -/
+  dropStaleEncoding : Bool
 deriving Repr, DecidableEq
 
-def Cfg.asis : Cfg := ⟨false, false, false, false, false, false, false⟩
-def Cfg.repaired : Cfg := ⟨true, true, true, true, true, true, true⟩
+def Cfg.asis : Cfg := ⟨false, false, false, false, false, false, false, false⟩
+def Cfg.repaired : Cfg := ⟨true, true, true, true, true, true, true, true⟩
 
 /-! ## datasets as far as the encoders look at them -/
 
@@ -72,6 +75,14 @@ def Var.strip (v : Var) : Var := { v with attrs := v.attrs.filter keepAttr }
 /-- a variable can be written by `to_netcdf` -/
 def Var.serialisable (v : Var) : Bool := v.attrs.all (fun a => a.2.encodable)
 
+/-- xarray's `.encoding` of the variables of a dataset: variable name ↦ the keys it holds (what
+    `xr.open_dataset` remembers of the file: `_FillValue`, `dtype`, `zlib`, `source`, …; a variable
+    computed in memory has none) -/
+abbrev Encodings := List (String × List String)
+
+def encOf (e : Encodings) (name : String) : List String :=
+  ((e.find? (fun p => p.1 == name)).map (·.2)).getD []
+
 /-- The grid's dataset: `face_node_connectivity` with its payload, the node positions (stored as
     `node_lon`/`node_lat` when `lonlat`; a Cartesian-only source has them only as `node_x/y/z`
     among the `extras` until the spherical ones are derived), and whatever else has been
@@ -82,6 +93,8 @@ structure Ds (P : Type) where
   nodes : List P
   lonlat : Bool
   extras : List Var
+  /-- `.encoding` of the grid's variables (file-sourced grids) -/
+  encoding : Encodings := []
 
 /-- `node_lon`, `node_lat` as the conventions describe them -/
 def lonlatVars : List Var :=
@@ -138,15 +151,39 @@ structure UgridOut (P : Type) where
   /-- every exported variable except `grid_topology` -/
   vars : List Var
   topo : Topo
+  /-- `.encoding` of the exported variables -/
+  encoding : Encodings := []
+
+/-- encoding keys that `to_netcdf` (CF encoding) writes as ATTRIBUTES of the variable: a key that is
+    already among the attributes is refused (`ValueError: Key … already exists in attrs`) -/
+def cfEncodingKeys : List String :=
+  ["_FillValue", "missing_value", "scale_factor", "add_offset", "units", "calendar"]
+
+/-- what the repaired exporter removes from the `.encoding` of a variable with a `_FillValue` attribute -/
+def staleKeys : List String := ["_FillValue", "missing_value", "dtype"]
+
+def hasFillAttr (vs : List Var) (name : String) : Bool :=
+  vs.any (fun v => v.name == name && v.attrs.any (fun a => a.1 == "_FillValue"))
+
+def exportEncoding (cfg : Cfg) (vs : List Var) (e : Encodings) : Encodings :=
+  if cfg.dropStaleEncoding then
+    e.map (fun p => if hasFillAttr vs p.1 then (p.1, p.2.filter (fun k => !staleKeys.contains k)) else p)
+  else e
+
+/-- `to_netcdf` refuses the variable: one of its CF encoding keys is also an attribute -/
+def encodingConflict (v : Var) (ks : List String) : Bool :=
+  ks.any (fun k => cfEncodingKeys.contains k && v.attrs.any (fun a => a.1 == k))
 
 /-- `_encode_ugrid`: returns the export and the module-level template afterwards -/
 def encodeUgrid {P} (cfg : Cfg) (tmpl : Topo) (d : Ds P) : UgridOut P × Topo :=
   let vs := d.vars
   let topo := topoOf tmpl vs
   let out := exportVars cfg vs
+  let outVars := if cfg.stripAttrs then out.map Var.strip else out
   ({ table := d.table, nodes := d.nodes,
-     vars := if cfg.stripAttrs then out.map Var.strip else out,
-     topo := topo },
+     vars := outVars,
+     topo := topo,
+     encoding := exportEncoding cfg outVars d.encoding },
    if cfg.copyTemplate then tmpl else topo)
 
 /-- attribute keys of the topology variable whose value is not a list of names -/
@@ -161,6 +198,11 @@ instance (t vs) : Decidable (ClosedIn t vs) := by unfold ClosedIn; infer_instanc
 
 def UgridOut.Closed {P} (o : UgridOut P) : Prop := ClosedIn o.topo o.vars
 def UgridOut.serialisable {P} (o : UgridOut P) : Bool := o.vars.all Var.serialisable
+
+/-- **the export can be written by `to_netcdf`**: every attribute is a netCDF attribute and no variable
+    has a CF encoding key that is also one of its attributes -/
+def UgridOut.writable {P} (o : UgridOut P) : Bool :=
+  o.serialisable && o.vars.all (fun v => !encodingConflict v (encOf o.encoding v.name))
 
 /-- names the reader (`_read_ugrid`) renames: each must be a variable of the dataset
     (`Dataset.rename` raises otherwise) -/
@@ -258,7 +300,23 @@ structure Block where
   firstId : Nat
 deriving Repr, DecidableEq
 
-def elemTypeKnown (k : Nat) : Bool := Gen.Conv.EXODUS_ELEMENT_TYPES.any (fun e => e.1 == k)
+/-- `_get_element_type(k)` returns a name: `k` is in its table, or beyond the size from which the
+    function names every size (`"SHELL<k>"`, repair `C07-exodus-element-type-any-size`) -/
+def elemTypeKnown (k : Nat) : Bool :=
+  Gen.Conv.EXODUS_ELEMENT_TYPES.any (fun e => e.1 == k) ||
+  (match Gen.Conv.EXODUS_GENERIC_FROM with
+   | some g => decide (g ≤ k)
+   | none => false)
+
+/-- the regenerated facts about `_get_element_type` that make it total on polygons: every size
+    `3 … 16` has a name and the function has a rule from some size `≤ 17` on.  True of the tree
+    with `C07-exodus-element-type-any-size` (`EXODUS_GENERIC_FROM = some 2`), false of the snapshot
+    (`none`: a 9-gon raises `KeyError`). -/
+def exoTotalFrom3 : Bool :=
+  (List.range 17).all (fun k => decide (k < 3) || elemTypeKnown k) &&
+  (match Gen.Conv.EXODUS_GENERIC_FROM with
+   | some g => decide (g ≤ 17)
+   | none => false)
 
 /-- the block loop: `s` = `conn_nofill` sorted, `cs` = the non-zero counts in index order.
     `none` = the code raises (index error, unknown element type, ragged or short block). -/
